@@ -90,6 +90,8 @@ def jobs(pid, tier):
                 vrt('C11', [rf'pool_w[12]_{LOST}_(stop|dtor|selfstop)', rf'pool_w1_{OKK}-{LOST}_stop'], bound=2, workers=4, max_viol=10000000)]
     if pid == 'C04':
         return [seq('C04')]
+    if pid == 'C05':
+        return [seq('C05')]
     if pid == 'C10':
         return [seq('C10')]
     if pid == 'C09':
